@@ -54,17 +54,28 @@ Schema(s) ==
     [] s = 6 -> (* case-insensitive names *)
          << DInt("i", "7"), DStrList("SL", <<"d">>),
             DSec("Sec", {}, << DInt("X", "5") >>) >>
+    [] s = 7 -> (* case-insensitive context: titles of multi sections, unique titles *)
+         << DSec("t", {"MULTI","TITLE"}, << DInt("x", "5") >>),
+            DSec("u", {"MULTI","TITLE","NO_TITLE_DUPES"}, << DInt("x", "5") >>) >>
+    [] s = 9 -> (* one titled multi section with a pointer: replacement in place, release of the old instance *)
+         << DSec("t", {"MULTI","TITLE"}, << DInt("x", "5"), DPtr("p") >>) >>
+    [] s = 8 -> (* two lists with defaults: interplay of consecutive list assignments *)
+         << DIntList("la", <<"1","2">>), DStrList("lb", <<"x">>) >>
 
-NoCase(s) == s = 6
+NoCase(s) == s \in {6, 7}
 
 ValuePool(s) ==
   CASE s = 1 -> {"1", "x", "true", "1.5"}
-    [] s = 2 -> {"1", "x"}
+    [] s = 2 -> IF Mode = "ignore" THEN {"1"} ELSE {"1", "x"}
     [] s = 3 -> {"1", "x"}
     [] s = 4 -> {"1", "x"}
     [] s = 5 -> {"1", "x"}
     [] s = 6 -> {"1", "I", "sl", "sec", "x"}
-TitlePool(s) == IF s \in {2, 3, 4} THEN {"a", "b"} ELSE {}
+    [] s = 7 -> {"1"}
+    [] s = 8 -> {"1"}
+    [] s = 9 -> {"1"}
+TitlePool(s) == IF s \in {2, 3, 4} THEN (IF Mode = "ignore" THEN {"a"} ELSE {"a", "b"})
+                ELSE IF s = 7 THEN {"a", "A"} ELSE IF s = 9 THEN {"a"} ELSE {}
 
 (* ------------------------------------------------------------------ *)
 (* token alphabet, depending on where the parser is                    *)
